@@ -240,6 +240,18 @@ def open_file(interp, pos, kw, node):
     return f
 
 
+def json_loads(i, pos, kw, node):
+    v = pos[0]
+    if isinstance(v, AStr):
+        v = v.simplify()
+    if not isinstance(v, str):
+        raise Unsupported("json.loads of %r" % (v,))
+    try:
+        return json.loads(v)
+    except ValueError as e:
+        raise RaiseEx("json.JSONDecodeError", str(e), node)
+
+
 def install(interp, db=None, files=None):
     """Put `interp` into scenario mode; returns the connection over `db`."""
     interp.vfs = dict(files or {})
